@@ -35,7 +35,12 @@ CaseResult body(Chooser& ch, Stats* st) {
   CaseResult r;
   SpecOpts so; so.max_terms = 4096; so.max_coeffs = 20000;
   TableSpec s; std::unique_ptr<Table> t; std::string producer;
-  std::string err = produce_table(ch, so, s, t, producer);
+  std::string err;
+  if (gen_version() >= 2 && ch.coin(1, 3)) {  // order patterns with their own specialised evaluation kernels
+    s = gen_pattern_spec(ch); producer = "P1_read"; t.reset(new Table());
+    { QuietStderr q; try { build_p1(*t, s); } catch (std::exception& e) { err = e.what(); } }
+    if (st) st->label("orders:dispatch_pattern");
+  } else err = produce_table(ch, so, s, t, producer);
   std::ostringstream js;
   js << "{\"producer\":" << jstr(producer) << ",\"spec\":" << s.json(4) << ",\"points\":[";
   if (!err.empty()) { r.fail = err; r.json = js.str() + "]}"; return r; }
